@@ -33,6 +33,8 @@ DECIDING = [
     "expectation_from_frequencies", "check_parity", "check_parity_of_vector", "get_parities_from_measurements",
     "counts-roundtrip", "counts-sum",
 ]
+BRANCHES = ["check_parity_of_vector:no-marked-qubits", "check_parity_of_vector:marked",
+            "Measurements.get_expectation_values:pair-correlation"]
 BUDGET = {"quick": (4, 30, 7000), "thorough": (16, 120, 400000)}
 
 _LIB = {}
@@ -476,10 +478,6 @@ def install(mon, reach):
     mon.hook_func(PP, "check_parity", post=_post_parity, pre=_pre_parity, name="check_parity")
     mon.hook_func(PP, "check_parity_of_vector", post=_post_parity_vec, pre=_pre_parity, name="check_parity_of_vector")
     mon.hook_func(PP, "get_parities_from_measurements", post=_post_parities, name="get_parities_from_measurements")
-
-
-BRANCHES = ["check_parity_of_vector:no-marked-qubits", "check_parity_of_vector:marked",
-            "Measurements.get_expectation_values:pair-correlation"]
 
 
 # ----------------------------------------------------------------------------- building library inputs
